@@ -25,6 +25,7 @@ import json
 import os
 import random
 import re
+import shutil
 from contextlib import redirect_stderr
 
 from harness import core
@@ -114,6 +115,9 @@ def generate(tier, rng):
         alpha = rng.choice(["02_+- \n.", "0123456789_+- \t\n\r\x0b\x0c.ex\x1c\x00", "0129_", "2 +-"])
         yield {"kind": "pyint", "strings": ["".join(rng.choice(alpha) for _ in range(rng.choice([0, 1, 2, 3, 4, 5, 8])))
                                             for _ in range(100)]}
+    for ver in (None, 0, 1, 3):
+        for probe in ("get_project", "init_project-below", "Project", "get_project-below"):
+            yield {"kind": "appear", "ver": ver, "probe": probe, "njobs": 2, "seed": 13}
     for ver in (None, 0, 1):
         for depth in (1, 2):
             for outer in ("current", "legacy", "newer"):
@@ -131,7 +135,7 @@ def search(rng, deadline):
 
 
 def shrink(case):
-    if case.get("kind") in ("verstr", "nest", "pyint"):
+    if case.get("kind") in ("verstr", "nest", "pyint", "appear"):
         return
     if case["njobs"] > 0:
         yield dict(case, njobs=case["njobs"] - 1)
@@ -549,6 +553,65 @@ def run_nest(case, ctx):
             "key": json.dumps(["nest", case["ver"], case["depth"], case["outer"]])}
 
 
+def run_appear(case, ctx):
+    """One process looks for a project in a directory (nothing there), THEN an incompatible project appears in it
+    (restored from an archive, checked out, copied): the refusal does not depend on what the process saw before."""
+    import signac
+
+    base = ctx.fresh_dir("c20a")
+    oracle, answers = [], []
+    jobs = job_data(case)
+    try:
+        d = os.path.join(base, "D")
+        os.makedirs(os.path.join(d, "sub"))
+        probe = case["probe"]
+        try:
+            if probe == "get_project":
+                signac.get_project(d)
+            elif probe == "get_project-below":
+                signac.get_project(os.path.join(d, "sub"))
+            elif probe == "Project":
+                signac.Project(d)
+            else:
+                signac.init_project(os.path.join(d, "sub", "inner"))
+                shutil.rmtree(os.path.join(d, "sub", "inner"))
+        except Exception as e:  # noqa: BLE001
+            answers.append("probe:" + exc_name(e))
+        # the project arrives
+        if case["ver"] == 3:
+            os.makedirs(os.path.join(d, ".signac"))
+            with open(os.path.join(d, ".signac", "config"), "w") as f:
+                f.write("schema_version = 3\n")
+            write_jobs(os.path.join(d, "workspace"), jobs)
+        else:
+            with open(os.path.join(d, "signac.rc"), "w") as f:
+                f.write("project = late\nworkspace_dir = my_ws\n")
+                if case["ver"] is not None:
+                    f.write("schema_version = %d\n" % case["ver"])
+            write_jobs(os.path.join(d, "my_ws"), jobs)
+        s0 = tree_snapshot(d)
+        for name, fn in (("init_project", lambda: signac.init_project(d)), ("Project", lambda: signac.Project(d)),
+                         ("get_project(search=False)", lambda: signac.get_project(d, search=False)),
+                         ("get_project", lambda: signac.get_project(d))):
+            try:
+                r = fn()
+                res = "ok:" + os.path.relpath(r.path, base)
+            except Exception as e:  # noqa: BLE001
+                res = exc_name(e)
+            answers.append(res)
+            s1 = tree_snapshot(d)
+            if res.startswith("ok"):
+                oracle.append("after a failed lookup (%s) an incompatible project (version %r) appeared in the directory; "
+                              "%s then returned a project (%s) instead of refusing" % (probe, case["ver"], name, res[3:]))
+            if s1 != s0:
+                oracle.append("... and %s changed the tree: %s" % (name, diff_tokens(d, s0, s1)))
+                break
+    finally:
+        ctx.cleanup(base)
+    return {"model": [], "impl": [], "oracle": oracle, "tags": ["appear:" + case["probe"]],
+            "key": json.dumps(["appear", case["ver"], case["probe"]])}
+
+
 def migrate_raise(d):
     err = migrate(d)
     if err is not None:
@@ -560,6 +623,8 @@ def run_case(case, ctx):
         return run_verstr(case, ctx)
     if case.get("kind") == "nest":
         return run_nest(case, ctx)
+    if case.get("kind") == "appear":
+        return run_appear(case, ctx)
     if case.get("kind") == "pyint":
         # Python's int() on ASCII strings against the Lean model `pyInt` (the conversion the version gate applies)
         model, impl, oracle = [], [], []
